@@ -290,22 +290,30 @@ func (conn *Conn) recv() {
 			})
 		}
 	}
-	conn.mutex.Lock()
-	conn.shutdown = true
 	if err == io.EOF {
 		err = ErrShutdown
 	}
-	for seq, call := range conn.pending {
-		delete(conn.pending, seq)
-		call.Error = err
-		call.done()
-	}
-	for _, call := range conn.streams {
-		if call.stream != nil {
-			call.stream.stop()
+	// The final sweep goes through the decode queue, behind the responses
+	// that were received before the end of the connection, so that those
+	// still complete their calls and only the rest is failed.
+	swept := make(chan struct{})
+	pipeline.Schedule(func() {
+		conn.mutex.Lock()
+		conn.shutdown = true
+		for seq, call := range conn.pending {
+			delete(conn.pending, seq)
+			call.Error = err
+			call.done()
 		}
-	}
-	conn.mutex.Unlock()
+		for _, call := range conn.streams {
+			if call.stream != nil {
+				call.stream.stop()
+			}
+		}
+		conn.mutex.Unlock()
+		close(swept)
+	})
+	<-swept
 	if conn.readSched != nil {
 		conn.readSched.Close()
 	}
